@@ -102,4 +102,54 @@ theorem C12_nn_rne {O : Type} [Bounded O] {order : List Rat → List Nat} (hO : 
       ∀ o' ∈ t.abs, fodist C02.rne px py o ≤ fodist C02.rne px py o' :=
   C12_nn_float C12_rne_rounding hO t hwf hne px py hv
 
+/-! ### the known overflow finding (findings/C12.json), on the model -/
+
+/-- `math.MaxFloat64` = (2^53 − 1)·2^971 -/
+def maxFloat64 : Rat := (2 ^ 53 - 1) * 2 ^ 971
+
+theorem overflowAt_pos : 0 < Dec.overflowAt := by
+  unfold Dec.overflowAt
+  have h : (2 : ℚ) ^ 970 < 2 ^ 1024 := pow_lt_pow_right₀ (by norm_num) (by norm_num)
+  generalize (2 : ℚ) ^ 970 = P at *
+  generalize (2 : ℚ) ^ 1024 = Q at *
+  linarith
+
+theorem maxFloat64_lt : maxFloat64 < 2 ^ 1024 := by
+  unfold maxFloat64
+  have e : (2 : ℚ) ^ 1024 = 2 ^ 53 * 2 ^ 971 := by rw [← pow_add]
+  rw [e]
+  have : (0 : ℚ) < 2 ^ 971 := by positivity
+  generalize (2 : ℚ) ^ 971 = P at *
+  have h1 : ((2 : ℚ) ^ 53 - 1) * P = 2 ^ 53 * P - P := by ring
+  rw [h1]
+  exact sub_lt_self _ this
+
+/-- from the overflow threshold on, `rne` yields 2^1024, the value of the pattern of +Inf -/
+theorem rne_overflow {q : Rat} (h : Dec.overflowAt ≤ q) : C02.rne q = 2 ^ 1024 := by
+  have hq : 0 < q := lt_of_lt_of_le overflowAt_pos h
+  rw [C02.rne_of_pos hq, (C02.rne_isRNE q hq).overflow.mpr h, valPos_infBits]
+
+/-- **C12_overflow_known** — the model-level negation for the known finding: every squared distance from the
+overflow threshold 2^1024 − 2^970 on (e.g. the one between x = 2^600 and x = 3·2^600) is rounded to 2^1024 — the
++Inf of the real code — and that is NOT below `math.MaxFloat64`: the leaf test `dist < d` of `nearestNeighbor`
+fails against the initial `d`, and `dist >= dists[i]` of `insertNearest` holds for every slot; nothing is stored,
+`NearestNeighbor` ends in its nil panic although the tree is not empty.  (`C12_nn_rne` does not contradict this:
+its initial distance is `none` = +∞, faithful only while the distances stay below the threshold.) -/
+theorem C12_overflow_known :
+    (∀ q : Rat, Dec.overflowAt ≤ q → C02.rne q = 2 ^ 1024 ∧ ¬ C02.rne q < maxFloat64) ∧
+    Dec.overflowAt ≤ (3 * 2 ^ 600 - 2 ^ 600 : Rat) * (3 * 2 ^ 600 - 2 ^ 600) := by
+  constructor
+  · intro q h
+    rw [rne_overflow h]
+    exact ⟨rfl, not_lt.mpr maxFloat64_lt.le⟩
+  · have e : (3 * 2 ^ 600 - 2 ^ 600 : Rat) * (3 * 2 ^ 600 - 2 ^ 600) = 2 ^ 1202 := by
+      have : (3 * 2 ^ 600 - 2 ^ 600 : Rat) = 2 ^ 601 := by
+        rw [show (2 : ℚ) ^ 601 = 2 ^ 600 * 2 from pow_succ 2 600]
+        generalize (2 : ℚ) ^ 600 = P
+        ring
+      rw [this, ← pow_add]
+    rw [e]
+    have h1 : (2 : ℚ) ^ 1024 ≤ 2 ^ 1202 := pow_le_pow_right₀ (by norm_num) (by norm_num)
+    exact overflowAt_le.trans h1
+
 end GeomV.C12
